@@ -770,6 +770,17 @@ class SSeq:
             return self._get(kk)
         raise OutOfReach("SSeq index %r" % (k, ))
 
+    def __setitem__(self, k, x):
+        if not isinstance(k, (int, SI, np.integer)):
+            raise OutOfReach("slice store into symbolic list")
+        n, g = self._len, self._get
+        kk = site(k < 0, k + n, k) if is_sym(k) else (k + n if k < 0 else k)
+        cur().safety("safe.index", sand(0 <= kk, kk < n))
+
+        def get(q, kk=kk, g=g, x=x):
+            return ite_val(q == kk, x, lambda: g(q))
+        self._get = get
+
     def append(self, x):
         n, g = self._len, self._get
 
@@ -1185,3 +1196,24 @@ def sym_array(name, n, inner=(), kind="real"):
 def sym_seq(name, n, inner=(), kind="real"):
     a = sym_array(name, n, inner, kind)
     return SSeq(n, a._cell[0], kind, name)
+
+
+def subst_val(v, k, q):
+    """value v (computed for the generic index k) re-indexed at q"""
+    if isinstance(v, S):
+        return wrap(z3.substitute(v.t, (k.t, _term(q))))
+    if isinstance(v, np.ndarray):
+        out = np.empty(v.shape, dtype=object)
+        for idx in np.ndindex(v.shape):
+            out[idx] = subst_val(v[idx], k, q)
+        return out.view(CArr)
+    if isinstance(v, tuple):
+        return tuple(subst_val(x, k, q) for x in v)
+    if isinstance(v, list):
+        return [subst_val(x, k, q) for x in v]
+    if v is None or isinstance(v, (int, float, Fraction, str, bool, np.integer, np.floating)):
+        return v
+    import enum
+    if isinstance(v, enum.Enum):
+        return v
+    raise OutOfReach("comprehension element of type %s cannot be re-indexed" % type(v).__name__)
